@@ -4,8 +4,8 @@
    Model/C03_TimeArith.v); None = the operation is refused (NotImplemented -> TypeError).
    `same_point x y`: both refused, or same kind, same scale and jd1 + jd2 equal. *)
 From Coq Require Import ZArith QArith Qabs List Bool String.
-From Verif Require Import Lib.Dyadic Model.C03_TimeArith Gen.C03_TimeArith Model.C03_Classify
-  Proofs.C03_TimeArith Proofs.C03_Gen.
+From Verif Require Import Lib.Dyadic Model.C03_TimeArith Model.C03_Formats Model.C03_Cells Gen.C03_TimeArith Model.C03_Classify
+  Proofs.C03_TimeArith Proofs.C03_Formats Proofs.C03_Cells Proofs.C03_Gen.
 Import ListNotations.
 Open Scope Q_scope.
 
@@ -104,6 +104,40 @@ Theorem result_scale_fmt : forall op a b r, spec op a b = Some r ->
 Proof. exact result_scale_fmt_l. Qed.
 Print Assumptions result_scale_fmt.
 
+(* OPERAND INTEGRITY.  State machine over cells (caller arrays and the arrays of objects, with identity, contents and
+   flags.writeable; Model/C03_Cells.v).  For ALL sequences of constructor / arithmetic / unary-minus / read-out calls of
+   the specification, every cell that existed before still has the same contents and the same flag *)
+Theorem operands_untouched : forall cs st id c,
+  nth_error (st_heap st) id = Some c -> nth_error (st_heap (crun cq_off st cs)) id = Some c.
+Proof. exact operands_untouched_l. Qed.
+Print Assumptions operands_untouched.
+
+(* ... the specification only ever appends cells, and the cells of new objects are frozen *)
+Theorem results_fresh_and_frozen : forall st c,
+  (exists ext, st_heap (cstep cq_off st c) = (st_heap st ++ ext)%list) /\
+  (forall ext, st_heap (cstep cq_off st c) = (st_heap st ++ ext)%list -> (forall f a, c <> ReadOut f a) ->
+     forall x, In x ext -> c_writeable x = false).
+Proof. intros st c. split; [exact (cstep_off_extends st c)|exact (results_frozen_l st c)]. Qed.
+Print Assumptions results_fresh_and_frozen.
+
+(* the historical defects, as quirks of the machine, break it: `val *= second2day` rewrites the caller's array ... *)
+Theorem c03_seconds_inplace_refuted :
+  nth_error (st_heap (cstep (mkCQ true false) (mkState [caller_secs] []) (NewDelta DSeconds "utc" (ACell 0) ANone))) 0
+    <> Some caller_secs /\
+  nth_error (st_heap (cstep cq_off (mkState [caller_secs] []) (NewDelta DSeconds "utc" (ACell 0) ANone))) 0 = Some caller_secs.
+Proof. exact seconds_inplace_refuted_l. Qed.
+Print Assumptions c03_seconds_inplace_refuted.
+
+(* ... and `val2 += val - whole` overwrites the caller's val2, freezes it and aliases it as jd2 of the new object *)
+Theorem c03_val2_aliased_refuted :
+  let st := mkState [caller_val; caller_val2] [] in
+  let st' := cstep (mkCQ false true) st (NewDelta DDays "utc" (ACell 0) (ACell 1)) in
+  option_map (fun c => (map Qred (c_data c), c_writeable c)) (nth_error (st_heap st') 1) = Some ([(1 # 4); (1 # 4)]%Q, false) /\
+  map t_jd2 (st_objs st') = [1%nat] /\
+  nth_error (st_heap (cstep cq_off st (NewDelta DDays "utc" (ACell 0) (ACell 1)))) 1 = Some caller_val2.
+Proof. exact val2_aliased_refuted_l. Qed.
+Print Assumptions c03_val2_aliased_refuted.
+
 (* duration formats: _to_jds keeps the length, normalises to whole days + fraction in [0,1), and _from_jds inverts it *)
 Theorem delta_to_jds_value : forall f v v2, value (to_jds f v v2) == (v + v2) * unit_days f.
 Proof. exact to_jds_value_l. Qed.
@@ -168,6 +202,22 @@ Theorem gen_neg_is_model :
   exists oc, gen_neg = NegBody oc /\ forall d, oequiv (run_unary oc d) (Some (neg d)).
 Proof. exact gen_neg_is_model_l. Qed.
 Print Assumptions gen_neg_is_model.
+
+(* REGENERATED: the bodies of TimeDeltaJD/Sec/Day/DateTime._to_jds and ._from_jds read from the source (every
+   try/except path) compute the specification's to_jds / from_jds for all rational inputs: which unit factor multiplies
+   which part, the floor split into whole days + fraction, the inverse factor on the way back; every `Unit.<name>`
+   constant has, at run time, the double nearest to its ideal value; all four formats are present *)
+Theorem gen_delta_formats_are_model :
+  (forall name, In name ["days"; "jd"; "seconds"; "timedelta"]%string ->
+     exists fs, In fs gen_delta_fmt_srcs /\ fs_name fs = name) /\
+  (forall fs, In fs gen_delta_fmt_srcs ->
+     exists f, dfmt_of_name (fs_name fs) = Some f /\
+       (forall e1 e2, In (e1, e2) (fs_to fs) -> forall v v2,
+           feval e1 v v2 == jd1 (to_jds f v v2) /\ feval e2 v v2 == jd2 (to_jds f v v2)) /\
+       (forall e, In e (fs_from fs) -> forall a b, feval e a b == from_jds f (mkJ a b)) /\
+       fs_to fs <> [] /\ fs_from fs <> []).
+Proof. exact gen_delta_formats_are_model_l. Qed.
+Print Assumptions gen_delta_formats_are_model.
 
 Theorem gen_laws_if_clean :
   gen_quirks = Some all_off ->
